@@ -81,6 +81,10 @@ def run_codec(ctx) -> RuleResult:
                     if len(values) == 1:
                         other = values[0]
                         other_text += " <- " + U(other)
+                    elif values:
+                        # re-assigned temporary (view, then further steps): any of its definitions may be the uint32 view
+                        other_text += " <- " + " | ".join(U(v) for v in values)
+                        break
             decoding = ".view(" in other_text and "uint32" in other_text
             if left_ko or right_ko:
                 where = module.loc(node)
@@ -119,7 +123,50 @@ def run_codec(ctx) -> RuleResult:
                                    "cmultiply does not receive KEY_OFFSET as its key offset"))
     if not found:
         raise AnalysisError("multiply no longer calls cmultiply (anchor changed)")
-    if n_enc < 1 or n_dec < 2:
+    # the codec is *only* the offset: no other shift of the code points in the functions that encode / decode (an extra
+    # shift at one site has to be mirrored at every other site - ndpoly.exponents, polynomial() for structured input,
+    # the C multiplier - and nothing checks that; Engler's sibling rule on the encode/decode family)
+    extra = 0
+    for module, qual, func in ctx.repo.all_functions():
+        if module.is_pyx:
+            continue
+        text = U(func)
+        if "KEY_OFFSET" not in text and ".view(numpy.uint32)" not in text:
+            continue
+        carriers = set()
+        for node in ast.walk(func):
+            if isinstance(node, ast.Assign) and len(node.targets) == 1 and isinstance(node.targets[0], ast.Name):
+                vtext = U(node.value)
+                if "KEY_OFFSET" in vtext or ".view(" in vtext:
+                    carriers.add(node.targets[0].id)
+        for node in ast.walk(func):
+            lit = other = None
+            if isinstance(node, ast.AugAssign) and isinstance(node.op, (ast.Add, ast.Sub, ast.BitOr, ast.BitXor, ast.BitAnd,
+                                                                        ast.LShift, ast.RShift, ast.Mult, ast.FloorDiv, ast.Mod)):
+                lit, other = node.value, node.target
+            elif isinstance(node, ast.BinOp) and isinstance(node.op, (ast.Add, ast.Sub, ast.BitOr, ast.BitXor, ast.LShift, ast.RShift)):
+                if isinstance(node.right, ast.Constant):
+                    lit, other = node.right, node.left
+                elif isinstance(node.left, ast.Constant):
+                    lit, other = node.left, node.right
+            if lit is None or not (isinstance(lit, ast.Constant) and isinstance(lit.value, int) and not isinstance(lit.value, bool)):
+                continue
+            root = other
+            while isinstance(root, (ast.Subscript, ast.Attribute, ast.Call)):
+                root = root.func if isinstance(root, ast.Call) else root.value
+            otext = U(other)
+            on_keys = (isinstance(root, ast.Name) and root.id in carriers) or ".view(numpy.uint32)" in otext
+            if not on_keys:
+                continue
+            extra += 1
+            result.ob(f"{module.name}.{qual}: code points are shifted by KEY_OFFSET only", False, module.loc(node), U(node)[:80])
+            result.add(Finding(
+                "R-CODEC", module, qual, node,
+                f"'{U(node)[:80]}' shifts key code points by the literal {lit.value} next to the KEY_OFFSET conversion: the key codec has "
+                f"several independent encode / decode sites (ndpoly.__new__, ndpoly.exponents, polynomial() for structured "
+                f"arrays, the C multiplier, text headers); a shift applied at one of them and not at all others stores or "
+                f"loads a different monomial", construct=f"{qual}: extra code-point shift"))
+    if (n_enc < 1 or n_dec < 2) and not extra:
         raise AnalysisError(f"R-CODEC: found {n_enc} encode and {n_dec} decode sites, expected >=1 and >=2")
     result.info.update({"encode_sites": n_enc, "decode_sites": n_dec, "KEY_OFFSET": offset})
     result.floor = 5
